@@ -49,6 +49,10 @@ type WritePlan struct {
 	// or stalled consumer (a pager, a full pipe whose reader sleeps, a network
 	// file system).
 	DelaysUs []int64 `json:"delays_us,omitempty"`
+	// Kind (standard output only): "" / "pipe", or "file": a regular file
+	// opened for appending that already holds Existing bytes (>> log).
+	Kind     string `json:"kind,omitempty"`
+	Existing int    `json:"existing,omitempty"`
 }
 
 type Stream struct {
